@@ -72,6 +72,12 @@ def install():
             t = _HubTrace()
             _BY_HUB[self] = t
             TRACES.append(t)
+            try:
+                # a hub first seen with subscriptions already in place (unpickled, ...): its history is unknown
+                if len(self.__dict__.get('_subscriptions', ())) > 0:
+                    t.unsupported = True
+            except Exception:
+                t.unsupported = True
         return t
 
     def init(self, *args):
